@@ -310,7 +310,10 @@ def one_step(real, model, cell, ppos, pels, r, shared, atol, hints, seeds, repla
     M.compare_atoms(got["atoms"], want["atoms"], what, pos_tol=None, ordered=False,
                     fields=("label", "el", "mass", "pair", "charge", "group"))
     M.compare_terms(got["terms"], want["terms"], what, untyped_by_class=True, with_extra=False)
-    # the written LAMMPS file must resolve to the same view
+    # the written LAMMPS file must resolve to the same view (a structure without atoms is outside that clause)
+    if len(new.positions) == 0:
+        stats.count("result-without-atoms")
+        return new, want, groups
     from mofun import Atoms
     buf = io.StringIO()
     try:
